@@ -1334,6 +1334,11 @@ impl TensorStore {
         self.router.clear();
         for key in new_router.scan("") {
             if let Ok(value) = new_router.get(&key) {
+                // Point lookups consult the Bloom filter first: a restored key the filter
+                // has never seen would be reported as absent.
+                if let Some(ref filter) = self.bloom_filter {
+                    filter.add(&key);
+                }
                 // Best-effort restore - continue even if individual entries fail
                 if let Err(e) = self.router.put(&key, value) {
                     tracing::warn!(
